@@ -19,7 +19,7 @@ CHECKS["C01"] = {
 CHECKS["C20"] = {
     "text": "Proof (Verus): after every local insert, global insert, begin-group and end-group the real GroupingContainer equals the stack-of-snapshots model (visible map + one snapshot per open group), with its representation invariant preserved, for all keys, values, histories and depths, over the BackingContainer trait contract; the HashMap and Vec<Option<V>> implementations of get/remove are proved against it. KMP: Matcher::new builds exactly the prefix function of the pattern and Search::next reports a match iff the pattern ends at the current position, for every pattern and every text.",
     "design_ref": "DESIGN.md §5 C20",
-    "note": "NOT decided here: iter_all/FromIterator replay, the string interner, tag uniqueness across threads (concurrency is outside both verifiers). Trusted: vstd HashMap model; HashMap::get_mut; consuming iteration modelled as take-any-until-empty; Clone identity on keys.",
+    "note": "NOT proved: iter_all/FromIterator replay and the string interner (bounded driver only: replay over every history <= 4 x continuation <= 2; interner under a constant hasher); tag uniqueness across threads is not decided at all (concurrency is outside both verifiers). Trusted: vstd HashMap model; HashMap::get_mut; consuming iteration modelled as take-any-until-empty; Clone identity on keys.",
     "technique": "contract-based deductive verification (Verus, ghost view + representation invariant)",
 }
 
